@@ -862,11 +862,17 @@ def run(ctx):
             "translator harness/c19_tr.py (Python ast -> Gallina: statement translation of _matmul_broadcast_shape and of the "
             "int branch of _compute_getitem_size; abstract interpretation of every class x entry point for the guard table: "
             "recognised guard patterns, MRO resolution by C3 on the AST, super() inlining; fail-closed)",
+            "operator-operand translation (c19_tr.OpTr): tensor / operator expressions denoted by their shapes through the class "
+            "invariants of ATTR_MODEL (_diag, diag_values, diag_shape, tensor) and the constructor shape rules of Diag / "
+            "ConstantDiag / Dense / Zero, which restate the classes' _size / _diag / __init__ (template-checked, compared "
+            "with the implementation on every grid case); static evaluation of operand-kind tests for an operator operand; "
+            "the syntactic fast-path scan (return self / return <operand> with the enclosing isinstance tests)",
             "torch's shape rules as specified in coq/C19/Model.v Part 1 (broadcast_shapes, matmul, expand, cat, integer "
             "indexing) — compared with the running torch on every generated case (spec_vs_torch)",
             "Python list indexing / slicing / range(n)[i] as modelled by py_idx, py_slice_to, py_range_idx",
             "hand transcriptions in Model.v Part 2/4 (the loop of _compute_getitem_size, expand, add_diagonal, _check_args, "
-            "the pinned Diag/Identity/Zero overrides) — tied by the correspondence only",
+            "the pinned Diag/Identity/Zero overrides, the pinned fast paths A + Zero / A * Zero) and the dispatch of "
+            "Check.model_pair_* on (class of the left operand, runtime class of the right operand) — tied by the correspondence only",
             "correspondence harness harness/c19.py (operator builders of harness/opbuild.py, dense oracle, forcing of lazy "
             "results) and the comparators of coq/C19/Check.v"],
         "evaluations": len(recs),
